@@ -41,10 +41,9 @@ CONSTANTS DEV_PriceFromNextBar,     \* uniswap: price(r) = close(r + 1)  (shift(
 
 Kinds == {"uni", "aave", "squeeth", "deribit", "gmx1", "gmx2", "mix"}
 (* "mix": a minutely pool next to the hourly option market in one run on the 1-minute grid.  A bar symbol stands for a BLOCK of
-   MixBlock one-minute bars (no resampling); an hour is 60 / MixBlock blocks; the option book every bar of an hour sees is the row of
-   the hour's first minute. *)
-MixBlock == 20
-BlocksPerHour == 60 \div MixBlock
+   20 one-minute bars whose rows are equal (no resampling: the block is the unit of this model, F = 1); an hour is 3 blocks; the
+   option book every bar of an hour sees is the row of the hour's first block. *)
+BlocksPerHour == 3
 Hooks == <<"bb", "ob", "ab">>
 TwapSpan == 6                      \* TWAP_PERIOD - 1 minutes back from the current bar
 
